@@ -435,3 +435,124 @@ func VerifSnapString(c *Conversation) string {
 		s.MsgState, s.Version, s.Whitespace, ake, s.SmpState, s.OurKeyID, s.TheirKeyID, strings.Join(ctr, ","), strings.Join(mh, ","),
 		s.OldMACKeys, s.MayRetx, strings.Join(rs, ","), s.FragIndex, s.FragLen, s.FragSize, s.OurTag, s.TheirTag, vhex(s.SSID), s.SentReveal, s.Injections)
 }
+
+// VerifMACKeys returns the receiving MAC keys of every key pair in the conversation's current
+// two-generation window, as "ourKeyID:theirKeyID" -> key (pairs with a missing key are omitted).
+func VerifMACKeys(c *Conversation) map[string][]byte {
+	out := map[string][]byte{}
+	k := &c.keys
+	if c.version == nil || k.ourKeyID == 0 || k.theirKeyID == 0 {
+		return out
+	}
+	for _, o := range []uint32{k.ourKeyID, k.ourKeyID - 1} {
+		for _, t := range []uint32{k.theirKeyID, k.theirKeyID - 1} {
+			priv, pub, err := k.pickOurKeys(o)
+			if err != nil || priv == nil || pub == nil {
+				continue
+			}
+			their, err := k.pickTheirKey(t)
+			if err != nil || their == nil {
+				continue
+			}
+			sk := calculateDHSessionKeys(priv, pub, their, c.version)
+			out[fmt.Sprintf("%d:%d", o, t)] = append([]byte{}, sk.receivingMACKey...)
+			sk.unlock()
+		}
+	}
+	return out
+}
+
+// VerifOldMACKeys parses an encoded (unfragmented) data message and returns the MAC keys it reveals.
+func VerifOldMACKeys(wire []byte) ([][]byte, bool) {
+	if len(wire) < 6 {
+		return nil, false
+	}
+	msg, err := decode(encodedMessage(wire))
+	if err != nil || len(msg) < 3 {
+		return nil, false
+	}
+	hl := otrv2HeaderLen
+	if DeserializeShort(msg) == 3 {
+		hl = otrv3HeaderLen
+	}
+	if len(msg) < hl || msg[2] != msgTypeData {
+		return nil, false
+	}
+	d := dataMsg{}
+	if d.deserialize(msg[hl:], otrV3{}) != nil {
+		return nil, false
+	}
+	var out [][]byte
+	for _, k := range d.oldMACKeys {
+		out = append(out, append([]byte{}, k...))
+	}
+	return out, true
+}
+
+// VerifDataIDs returns (senderKeyID, recipientKeyID, counter) of an encoded data message.
+func VerifDataIDs(wire []byte) (uint32, uint32, uint64, bool) {
+	if len(wire) < 6 {
+		return 0, 0, 0, false
+	}
+	msg, err := decode(encodedMessage(wire))
+	if err != nil || len(msg) < 3 {
+		return 0, 0, 0, false
+	}
+	hl := otrv2HeaderLen
+	if DeserializeShort(msg) == 3 {
+		hl = otrv3HeaderLen
+	}
+	if len(msg) < hl || msg[2] != msgTypeData {
+		return 0, 0, 0, false
+	}
+	d := dataMsg{}
+	if d.deserialize(msg[hl:], otrV3{}) != nil {
+		return 0, 0, 0, false
+	}
+	return d.senderKeyID, d.recipientKeyID, DeserializeLong(d.topHalfCtr[:]), true
+}
+
+// VerifPeekTLVs decrypts an encoded data message with the conversation's current keys without
+// changing any state, and returns the plaintext and the TLVs it carries (type, value).
+func VerifPeekTLVs(c *Conversation, wire []byte) (plain []byte, types []uint16, values [][]byte, ok bool) {
+	msg, err := decode(encodedMessage(wire))
+	if err != nil || c.version == nil {
+		return nil, nil, nil, false
+	}
+	hl := otrv2HeaderLen
+	if c.version.protocolVersion() == 3 {
+		hl = otrv3HeaderLen
+	}
+	if len(msg) < hl || msg[2] != msgTypeData {
+		return nil, nil, nil, false
+	}
+	d := dataMsg{}
+	if d.deserialize(msg[hl:], c.version) != nil {
+		return nil, nil, nil, false
+	}
+	sk, err := c.keys.deriveDHSessionKeys(d.recipientKeyID, d.senderKeyID, c.version)
+	if err != nil {
+		return nil, nil, nil, false
+	}
+	defer sk.unlock()
+	if d.checkSign(sk.receivingMACKey, msg[:hl], c.version) != nil {
+		return nil, nil, nil, false
+	}
+	p := plainDataMsg{}
+	_ = p.decrypt(sk.receivingAESKey, d.topHalfCtr, makeCopy(d.encryptedMsg))
+	for _, t := range p.tlvs {
+		types = append(types, t.tlvType)
+		values = append(values, makeCopy(t.tlvValue))
+	}
+	return makeCopy(p.message), types, values, true
+}
+
+// VerifSendTLVs emits a data message carrying the given TLVs (authenticated traffic with arbitrary payload).
+func VerifSendTLVs(c *Conversation, text []byte, types []uint16, values [][]byte) ([]ValidMessage, error) {
+	var tlvs []tlv
+	for i := range types {
+		tlvs = append(tlvs, tlv{tlvType: types[i], tlvLength: uint16(len(values[i])), tlvValue: values[i]})
+	}
+	msgs, _, err := c.createSerializedDataMessage(text, messageFlagIgnoreUnreadable, tlvs)
+	return msgs, err
+}
